@@ -1,6 +1,6 @@
 (* C14 property theorems.  Only statements closed by [exact]; each followed by Print Assumptions.
    Stated over the definitions the harness runs (C14.Model.run / run_prog on the abstract stack of C14.Stack). *)
-From Miller Require Import C14.Value C14.Stack C14.Model C14.Proofs C14.StackProofs C14.ScopeProofs C14.InterpProofs C14.PrecProofs gen.Gen_Precedence.
+From Miller Require Import C14.Value C14.Stack C14.Model C14.Proofs C14.StackProofs C14.ScopeProofs C14.DepthProofs C14.InterpProofs C14.PrecProofs gen.Gen_Precedence.
 Open Scope Z_scope.
 
 (* ---- the pooled, recycled frames and framesets of pkg/runtime/stack.go are observationally the abstract scopes:
@@ -69,6 +69,16 @@ Theorem C14_statements_touch_only_current_frameset :
     stk st <> [] -> run fns fuel (TBlock ss) st = Ok (RO o, st') -> tl (stk st') = tl (stk st) /\ stk st' <> [].
 Proof. exact statements_preserve_caller_framesets. Qed.
 Print Assumptions C14_statements_touch_only_current_frameset.
+
+(* block scoping over whole executions (induction on fuel): a block -- with every nested block, loop, break/continue/return,
+   function and subroutine call in it -- returns with the current frameset at the frame depth it was entered with, and with
+   all callers' framesets untouched: the scopes visible after the block are the ones visible before it *)
+Theorem C14_blocks_restore_scope_depth :
+  forall fns fuel ss st o st',
+    (1 <= depth (stk st))%nat -> run fns fuel (TBlock ss) st = Ok (RO o, st') ->
+    depth (stk st') = depth (stk st) /\ tl (stk st') = tl (stk st).
+Proof. exact blocks_restore_scope_depth. Qed.
+Print Assumptions C14_blocks_restore_scope_depth.
 
 (* ---- new fields are appended while reassigned fields keep their position *)
 Theorem C14_reassigned_field_keeps_position :
